@@ -9,6 +9,7 @@ import Insim.Drv.C18
 import Insim.Drv.C19
 import Insim.Drv.C20
 import Insim.Drv.Conn
+import Insim.Drv.Pkt
 /-
 Line-protocol driver: one operation per input line, one canonical result per output line.
 Imports model files only (no Mathlib, no proof files) so that it links as a native executable.
@@ -17,7 +18,7 @@ open Insim.Drv
 
 def dispatch (line : String) : String :=
   let ws := words line
-  let hs : List (List String → Option String) := [C08.handle, C10.handle, C12.handle, C13.handle, C14.handle, C15.handle, C16.handle, C18.handle, C19.handle, C20.handle, Conn.handle]
+  let hs : List (List String → Option String) := [C08.handle, C10.handle, C12.handle, C13.handle, C14.handle, C15.handle, C16.handle, C18.handle, C19.handle, C20.handle, Conn.handle, Pkt.handle]
   match hs.findSome? (fun h => h ws) with
   | some r => r
   | none => "bad-op"
